@@ -205,6 +205,11 @@ def r4(ctx: Ctx) -> None:
         if any(e.kind == "call" and calls_target(e, "Market._execute_orders") for e in p.walk_events(True)):
             ctx.unrec(f, f.node, "early return of a matching round", "this path completes a round (it fills a pair) without the walk: whether it leaves nothing executable behind is not decided", p.describe()[:160])
             continue
+        if ok and muts and all(e.kind == "call" and e is not None and e.name == "remain_executable_orders" for e in muts):
+            # the only effect on this path is inside the executability test itself (a view it consults keeps a memo, say): whether
+            # what is kept can make the test answer wrongly later is a question about that memo (C08), not decided here
+            ctx.unrec(f, f.node, "early return of a matching round", "the executability test is not free of effects: what it keeps is not modelled", p.describe()[:160])
+            continue
         ctx.check(ok and not muts, f, f.node, "early return of a matching round", "only under `not remain_executable_orders()`, without effects",
                   p.describe()[:200])
     ctx.require(n >= 1, "no early-return path found in Market._execution")
